@@ -76,7 +76,10 @@ func (e *OpEngine) RunActivationChecks(maxRank int) {
 	e.runActivation(actDef{name: "LeakyRelu", rng: xr, finite: true, rule: "max(0,x)+m·min(0,x)", elem: leaky(sym.SymE("m")),
 		ctor: func(e *OpEngine, key, label string) (interp.Value, bool) {
 			conf := e.newStructPtr(mT, map[string]interp.Value{"M": interp.FloatV{E: sym.SymE("m")}})
-			return e.ctorNoErr(core.PkgActs, "NewLeakyRelu", conf)(e, key, label)
+			obj, ok := e.ctorNoErr(core.PkgActs, "NewLeakyRelu", conf)(e, key, label)
+			// the caller reuses its config afterwards: the layer must keep the slope it was built with
+			interp.Store(conf.C.Fields[0], interp.FloatV{E: sym.SymE("m_changed_later")})
+			return obj, ok
 		}}, maxRank, " M=m", nil)
 	e.runActivation(actDef{name: "LeakyRelu", rng: xr, finite: true, rule: "max(0,x)+0.01·min(0,x)", elem: leaky(sym.NumF(0.01)),
 		ctor: func(e *OpEngine, key, label string) (interp.Value, bool) {
@@ -101,7 +104,10 @@ func (e *OpEngine) RunActivationChecks(maxRank int) {
 			},
 			ctor: func(e *OpEngine, key, label string) (interp.Value, bool) {
 				conf := e.newStructPtr(sT, map[string]interp.Value{"Dim": intV(sym.PInt(int64(dim)))})
-				return e.ctorNoErr(core.PkgActs, "NewSoftmax", conf)(e, key, label)
+				obj, ok := e.ctorNoErr(core.PkgActs, "NewSoftmax", conf)(e, key, label)
+				// the caller reuses its config afterwards (e.g. for a second layer): this layer keeps its own Dim
+				interp.Store(conf.C.Fields[0], intV(sym.PInt(int64((dim+1)%2))))
+				return obj, ok
 			}}
 		e.runActivation(soft, maxRank, fmt.Sprintf(" Dim=%d", dim), &dim)
 	}
